@@ -103,6 +103,7 @@ func genKsc(g *Gen) {
 		k.renderPart()
 		k.importPart()
 		k.scriptedHistories()
+		k.scriptedPk()
 		n := g.Scale(40, 300)
 		for i := 0; i < n; i++ {
 			switch i % 4 {
@@ -576,6 +577,26 @@ func (k *kscGen) scriptedHistories() {
 		k.op("ksc-raw-damage", "raw-del %s", hexTok([]byte(nm)))
 		k.op("ksc-raw-damage", "fetch-usage")
 		k.op("ksc-raw-damage", "fetch-child")
+		k.op("ksc-dump", "dump")
+	}
+}
+
+// (4) a public-key bucket: issued keys listed with their coordinates; a key shorter than 8 bytes panics the listing
+func (k *kscGen) scriptedPk() {
+	g := k.g
+	for i := 0; i < g.Scale(4, 30); i++ {
+		g.Reset()
+		for j := 0; j < 6; j++ {
+			k.op("ksc-pk-roundtrip", "put-pk %d %d %s", j%2, j/2, hexTok(k.rb(73)))
+		}
+		k.op("ksc-pk-boundary", "put-pk %d %d %s", kscU32Edges[k.r.Intn(len(kscU32Edges))], kscU32Edges[k.r.Intn(len(kscU32Edges))], hexTok(k.rb(73)))
+		k.op("ksc-pk-roundtrip", "fetch-pks")
+		k.op("ksc-reopen", "reopen")
+		k.op("ksc-pk-roundtrip", "fetch-pks")
+		k.op("ksc-pk-long-key", "raw-put %s %s", hexTok(k.rb(9+k.r.Intn(4))), hexTok(k.rb(5)))
+		k.op("ksc-pk-long-key", "fetch-pks")
+		k.op("ksc-pk-short-key-panic", "raw-put %s %s", hexTok(k.rb(1+k.r.Intn(7))), hexTok(k.rb(5)))
+		k.op("ksc-pk-short-key-panic", "fetch-pks")
 		k.op("ksc-dump", "dump")
 	}
 }
